@@ -21,11 +21,11 @@ func VerifC01Relay() {
 	if reduced {
 		methods, statuses = methods[:2], statuses[:1]
 	}
-	var reqs []reqSpec
-	var ress []resSpec
+	var reqs []zzreqSpec
+	var ress []zzresSpec
 	var wire [][]byte
 	for i := 0; i < n; i++ {
-		r := reqSpec{method: methods[vf.Choice("method", len(methods))]}
+		r := zzreqSpec{method: methods[vf.Choice("method", len(methods))]}
 		if reduced {
 			// sequences: concrete targets (distinct per request), one symbolic header byte
 			r.absolute = i == 0 && vf.Choice("absolute-form", 2) == 1
@@ -35,10 +35,10 @@ func VerifC01Relay() {
 			r.absolute = vf.Choice("absolute-form", 2) == 1
 			r.path = "/" + vf.String("path", 1) + "?q=" + vf.String("query", 1)
 			r.hval = vf.String("x-a", 2)
-			alnum(r.path[1:2])
-			alnum(r.path[len(r.path)-1:])
+			zzalnum(r.path[1:2])
+			zzalnum(r.path[len(r.path)-1:])
 		}
-		alnum(r.hval)
+		zzalnum(r.hval)
 		if r.method == "POST" {
 			r.body = vf.Bytes("req-body", vf.Choice("req-body-len", vf.Param("bodylens")))
 			r.chunked = !reduced && vf.Choice("req-chunked", 2) == 1
@@ -46,8 +46,8 @@ func VerifC01Relay() {
 		r.close = (!reduced || i == 0) && vf.Choice("req-close", 2) == 1
 		reqs = append(reqs, r)
 		wire = append(wire, r.wire())
-		s := resSpec{status: statuses[vf.Choice("status", len(statuses))], framing: vf.Choice("res-framing", 3-vf.Param("reduced")), hval: vf.String("x-b", 2-vf.Param("reduced"))}
-		alnum(s.hval)
+		s := zzresSpec{status: statuses[vf.Choice("status", len(statuses))], framing: vf.Choice("res-framing", 3-vf.Param("reduced")), hval: vf.String("x-b", 2-vf.Param("reduced"))}
+		zzalnum(s.hval)
 		if s.status != 204 {
 			s.body = vf.Bytes("res-body", vf.Choice("res-body-len", vf.Param("bodylens")))
 		}
@@ -60,14 +60,14 @@ func VerifC01Relay() {
 	} else {
 		segs = wire
 	}
-	conn := newClientConn("client", true, segs...)
-	o := &origin{}
+	conn := zznewClientConn("client", true, segs...)
+	o := &zzorigin{}
 	o.answer = func(i int, req *http.Request) (*http.Response, error) {
-		return rawResponse(ress[i].wire(), req)
+		return zzrawResponse(ress[i].wire(), req)
 	}
 	p := NewProxy()
 	p.SetRoundTripper(o)
-	serveConn(p, conn)
+	zzserveConn(p, conn)
 
 	// how many exchanges should have been served: up to and including the first that asks to close
 	served := 0
@@ -83,7 +83,7 @@ func VerifC01Relay() {
 	for _, r := range reqs {
 		ms = append(ms, r.method)
 	}
-	got := clientView(conn.out.Bytes(), ms)
+	got := zzclientView(conn.out.Bytes(), ms)
 	vf.Assert(len(got) == served, "client-receives-one-response-per-request")
 	for i := 0; i < served && i < len(o.seen) && i < len(got); i++ {
 		s := o.seen[i]
@@ -121,7 +121,7 @@ func VerifC01Sequence() { VerifC01Relay() }
 // one-to-one after it.
 func VerifC01CloseDelimited() {
 	methods := []string{"GET", "POST", "HEAD"}
-	r1 := reqSpec{method: methods[vf.Choice("method", len(methods))], path: "/a?q=1", hval: "h1"}
+	r1 := zzreqSpec{method: methods[vf.Choice("method", len(methods))], path: "/a?q=1", hval: "h1"}
 	if r1.method == "POST" {
 		r1.body = vf.Bytes("req-body", vf.Choice("req-body-len", 2))
 	}
@@ -131,29 +131,29 @@ func VerifC01CloseDelimited() {
 	case 2:
 		r1.http10 = true // an HTTP/1.0 client without keep-alive: the connection ends with the response
 	}
-	r2 := reqSpec{method: "GET", path: "/b?q=2", hval: "h2"}
-	s1 := resSpec{status: 200, framing: vf.Choice("first-response-framing", 2) * 2, hval: "x", http10: vf.Choice("origin-http10", 2) == 1}
+	r2 := zzreqSpec{method: "GET", path: "/b?q=2", hval: "h2"}
+	s1 := zzresSpec{status: 200, framing: vf.Choice("first-response-framing", 2) * 2, hval: "x", http10: vf.Choice("origin-http10", 2) == 1}
 	s1.body = vf.Bytes("res-body", vf.Choice("res-body-len", vf.Param("bodylens")))
-	s2 := resSpec{status: 200, hval: "y", body: []byte("second")}
+	s2 := zzresSpec{status: 200, hval: "y", body: []byte("second")}
 	var segs [][]byte
 	if vf.Choice("pipelined", 2) == 1 {
 		segs = [][]byte{append(r1.wire(), r2.wire()...)}
 	} else {
 		segs = [][]byte{r1.wire(), r2.wire()}
 	}
-	conn := newClientConn("client", true, segs...)
-	o := &origin{}
+	conn := zznewClientConn("client", true, segs...)
+	o := &zzorigin{}
 	o.answer = func(i int, req *http.Request) (*http.Response, error) {
 		if i == 0 {
-			return rawResponse(s1.wire(), req)
+			return zzrawResponse(s1.wire(), req)
 		}
-		return rawResponse(s2.wire(), req)
+		return zzrawResponse(s2.wire(), req)
 	}
 	p := NewProxy()
 	p.SetRoundTripper(o)
-	serveConn(p, conn)
+	zzserveConn(p, conn)
 
-	got := clientView(conn.out.Bytes(), []string{r1.method, "GET"})
+	got := zzclientView(conn.out.Bytes(), []string{r1.method, "GET"})
 	vf.Assert(len(got) >= 1, "client-receives-the-first-response")
 	if len(got) == 0 {
 		return
@@ -181,48 +181,48 @@ func VerifC01CloseDelimited() {
 // echoBody is the response body of a streaming origin: it yields the request
 // body as the origin reads it, so the origin is still reading the request while
 // the proxy is already relaying the response.
-type echoBody struct {
+type zzechoBody struct {
 	src  io.ReadCloser
 	seen *[]byte
 }
 
-func (e *echoBody) Read(p []byte) (int, error) {
+func (e *zzechoBody) Read(p []byte) (int, error) {
 	n, err := e.src.Read(p)
 	*e.seen = append(*e.seen, p[:n]...)
 	return n, err
 }
-func (e *echoBody) Close() error { return nil }
+func (e *zzechoBody) Close() error { return nil }
 
 // VerifC01StreamingOrigin: the origin starts answering before it has read the
 // request body and echoes it (upload to a streaming endpoint). Origin and client
 // must both see the whole body, byte for byte, and a second request on the same
 // connection is then served one-to-one.
 func VerifC01StreamingOrigin() {
-	r1 := reqSpec{method: "POST", path: "/up?q=1", hval: "h1"}
+	r1 := zzreqSpec{method: "POST", path: "/up?q=1", hval: "h1"}
 	r1.body = vf.Bytes("req-body", vf.Choice("req-body-len", vf.Param("bodylens")))
 	r1.chunked = vf.Choice("req-chunked", 2) == 1
-	r2 := reqSpec{method: "GET", path: "/b?q=2", hval: "h2"}
+	r2 := zzreqSpec{method: "GET", path: "/b?q=2", hval: "h2"}
 	var segs [][]byte
 	if vf.Choice("pipelined", 2) == 1 {
 		segs = [][]byte{append(r1.wire(), r2.wire()...)}
 	} else {
 		segs = [][]byte{r1.wire(), r2.wire()}
 	}
-	conn := newClientConn("client", true, segs...)
+	conn := zznewClientConn("client", true, segs...)
 	var originRead []byte
 	p := NewProxy()
 	seen := 0
-	p.SetRoundTripper(roundTripFunc(func(req *http.Request) (*http.Response, error) {
+	p.SetRoundTripper(zzroundTripFunc(func(req *http.Request) (*http.Response, error) {
 		seen++
 		if seen == 1 {
 			return &http.Response{StatusCode: 200, Status: "200 OK", Proto: "HTTP/1.1", ProtoMajor: 1, ProtoMinor: 1,
 				Header: http.Header{"X-B": {"echo"}}, TransferEncoding: []string{"chunked"}, ContentLength: -1,
-				Body: &echoBody{src: req.Body, seen: &originRead}, Request: req}, nil
+				Body: &zzechoBody{src: req.Body, seen: &originRead}, Request: req}, nil
 		}
-		return rawResponse(resSpec{status: 200, hval: "y", body: []byte("second")}.wire(), req)
+		return zzrawResponse(zzresSpec{status: 200, hval: "y", body: []byte("second")}.wire(), req)
 	}))
-	serveConn(p, conn)
-	got := clientView(conn.out.Bytes(), []string{"POST", "GET"})
+	zzserveConn(p, conn)
+	got := zzclientView(conn.out.Bytes(), []string{"POST", "GET"})
 	vf.Assert(len(got) == 2 && seen == 2, "client-receives-one-response-per-request")
 	if len(got) != 2 {
 		return
@@ -233,6 +233,6 @@ func VerifC01StreamingOrigin() {
 	vf.Reach("done")
 }
 
-type roundTripFunc func(*http.Request) (*http.Response, error)
+type zzroundTripFunc func(*http.Request) (*http.Response, error)
 
-func (f roundTripFunc) RoundTrip(r *http.Request) (*http.Response, error) { return f(r) }
+func (f zzroundTripFunc) RoundTrip(r *http.Request) (*http.Response, error) { return f(r) }
